@@ -11,9 +11,16 @@ THEOREMS = ["Rspirv.Props.C12.insertIntoBlock_spec", "Rspirv.Props.C12.step_spec
 NEEDS = ("header", "core", "decode", "operand_enum", "asm_arms", "parse_operand", "operands", "builder")
 
 
+TERMINATORS = {"ret", "kill", "branch", "insert_ret", "insert_unreachable", "unreachable", "ret_value", "branch_conditional",
+               "switch", "terminate_invocation", "ignore_intersection_khr", "terminate_ray_khr", "emit_mesh_tasks_ext"}
+TERMINATORS |= {"insert_" + t for t in list(TERMINATORS) if not t.startswith("insert_")}
+
+
 class Sim:
     """selection / block-length bookkeeping written from the property's statement (used to generate in-range offsets and
     as the oracle for the success/failure conditions) -- not the Lean model"""
+
+    block_methods = None       # optional: names of generated methods whose sink is the current block
 
     def __init__(self):
         self.fns = []          # list of list of block lengths
@@ -41,7 +48,7 @@ class Sim:
                 return "err"
             self.fns[self.sf].append(0); self.sb = len(self.fns[self.sf]) - 1
             return "ok"
-        if name in ("ret", "kill", "branch", "insert_ret", "insert_unreachable", "unreachable"):
+        if name in TERMINATORS:
             if self.sb is None:
                 return "err"
             self.fns[self.sf][self.sb] += 1; self.sb = None
@@ -79,6 +86,11 @@ class Sim:
             if self.fns[self.sf][self.sb] == 0:
                 return "err"
             self.fns[self.sf][self.sb] -= 1
+            return "ok"
+        if self.block_methods is not None and name in self.block_methods:
+            if self.sb is None:
+                return "err"
+            self.fns[self.sf][self.sb] += 1
             return "ok"
         return "ok"     # module-level / id / type requests never fail
 
